@@ -98,7 +98,27 @@ JudgeWire(r) == /\ r.err = ""
                 /\ r.wire = r.frame
                 /\ DecodeFrame(r.wire).ok
 
+(* C04: the size cap, on frames too long to hand to TLC as sequences *)
+JudgeCap(r) == /\ r.panic = ""
+               /\ r.ok = (r.len_field = r.actual - 4 /\ r.len_field >= 10 /\ r.len_field <= MaxMsgLen)
+               /\ r.payload_ok = r.ok
+
+(* C04 stream half: the same frame stream under one segmentation / pause pattern, against a live connection *)
+Prefix(n, s) == SubSeq(s, 1, n)
+JudgeStream(r) ==
+    /\ r.fault = ""
+    /\ CASE r.kind \in {"cut", "gap-boundary"} ->        \* any segmentation, any idle gap: same messages, same order, link up
+              r.alive /\ r.delivered = r.expected
+         [] r.kind = "gap-inframe" ->                     \* a gap longer than T8 inside frame k drops the link; frames before k were delivered
+              /\ ~r.alive /\ r.gap_frame >= 0
+              /\ r.delivered = Prefix(r.gap_frame, r.expected)
+         [] r.kind = "badlen" ->                          \* length outside [10, cap]: link dropped, nothing like the claimed size allocated
+              /\ ~r.alive /\ r.delivered = r.expected /\ r.alloc_kb < 1024
+         [] OTHER -> FALSE
+
 Judge(r) == CASE r.t = "c03d" -> JudgeData(r)
+              [] r.t = "c04cap" -> JudgeCap(r)
+              [] r.t = "c04s" -> JudgeStream(r)
               [] r.t = "c03w" -> JudgeWire(r)
               [] r.t = "c03c" -> JudgeCtl(r)
               [] r.t = "c04f" -> JudgeFrameDecode(r)
